@@ -6,12 +6,6 @@ Import ListNotations.
 Local Open Scope string_scope.
 Local Open Scope list_scope.
 
-Inductive dslc (A : Type) :=
-| DLeaf (cls method : string) (pos : list A) (kw : list (string * A))
-| DNull
-| DBin (o : bop) (a b : dslc A).
-Arguments DLeaf {A}. Arguments DNull {A}. Arguments DBin {A}.
-
 Section Build.
   Variable T : tables.
   Variable A : Type.
